@@ -24,7 +24,7 @@ EXTENDS Integers, Sequences, FiniteSets, TLC
 CONSTANTS MaxRank,     \* design run: objective ranks 0..MaxRank
           MaxChain,    \* design run: number of restarts explored
           Variant      \* "none", or the name of a deliberately wrong mechanism (self-test of the
-                       \* invariants: "ClassifyEq", "SnapNitOff", "LSAnyTrial"); never used for verdicts
+                       \* invariants: "ClassifyEq", "SnapNitOff", "LSAnyTrial", "FilterAfterTests", "NoFilter0", "FtolFirstWithUpd"); never used for verdicts
 
 VARIABLES
   cfg,      \* configuration of the current call (record, see MCDriver!Configs)
@@ -47,12 +47,13 @@ VARIABLES
   snap,     \* most recent callback state (record) or NoSnap
   npts,     \* point ids allocated so far (design run)
   gen,      \* generation of the objective definition (C13)
+  fgen,     \* generation at which the stored sequence last passed the curvature filter (C13/C18)
   uphill,   \* TRUE once an accepted step increased the objective (C03)
   fault,    \* "none" | kind of user callable that raised (C20)
   out       \* NoOut | result record | raised record
 
 vars == <<cfg, chain, pc, nit, nfev, njev, nit0, n0, f0r, x, fx, fAt, gAt, pg, memo, mem, matsOf,
-          ls, task, success, calls, lastCb, snap, npts, gen, uphill, fault, out>>
+          ls, task, success, calls, lastCb, snap, npts, gen, fgen, uphill, fault, out>>
 
 -----------------------------------------------------------------------------
 NoOut   == [kind |-> "none"]
@@ -89,7 +90,7 @@ Init ==
   /\ memo = [pt |-> 0, f |-> FALSE, g |-> FALSE]
   /\ mem = <<>> /\ matsOf = <<>> /\ ls = NoLS
   /\ task = "START" /\ success = FALSE /\ calls = NoCalls /\ lastCb = FALSE /\ snap = NoSnap
-  /\ npts = 0 /\ gen = 0 /\ uphill = FALSE /\ fault = "none" /\ out = NoOut
+  /\ npts = 0 /\ gen = 0 /\ fgen = 0 /\ uphill = FALSE /\ fault = "none" /\ out = NoOut
 
 -----------------------------------------------------------------------------
 (* main.py:347-387, 404-407, 684-748: bounds, clip, restore, counters.     *)
@@ -113,7 +114,7 @@ Start(c, p) ==
   /\ task' = "START" /\ success' = FALSE /\ calls' = NoCalls /\ lastCb' = FALSE
   /\ snap' = NoSnap /\ npts' = Max(npts, p) /\ uphill' = FALSE /\ fault' = "none" /\ out' = NoOut
   /\ pc' = IF c.ck THEN "StopT" ELSE "F0"
-  /\ UNCHANGED <<chain, gen>>
+  /\ UNCHANGED <<chain, gen, fgen>>
 
 (* A user objective call: counters and memo (scalar_function.py:105-169).  *)
 CountF(p) == /\ nfev' = nfev + 1
@@ -129,7 +130,7 @@ EvalF0(p, fr) ==
   /\ CountF(p) /\ fx' = fr /\ fAt' = p /\ f0r' = fr /\ n0' = nfev + 1
   /\ pc' = "StopT"
   /\ UNCHANGED <<cfg, chain, nit, njev, nit0, x, gAt, pg, mem, matsOf, ls, task, success, calls,
-                 lastCb, snap, npts, gen, uphill, fault, out>>
+                 lastCb, snap, npts, gen, fgen, uphill, fault, out>>
 
 (* main.py:389-401: callable ftarget / gtol are resolved exactly once each *)
 CallStop(who) ==
@@ -137,19 +138,19 @@ CallStop(who) ==
      \/ pc = "StopG" /\ who = "gtol" /\ pc' = "Early"
   /\ calls' = [calls EXCEPT ![who] = @ + 1]
   /\ UNCHANGED <<cfg, chain, nit, nfev, njev, nit0, n0, f0r, x, fx, fAt, gAt, pg, memo, mem, matsOf,
-                 ls, task, success, lastCb, snap, npts, gen, uphill, fault, out>>
+                 ls, task, success, lastCb, snap, npts, gen, fgen, uphill, fault, out>>
 \* the same calls made later than the code does today (any place before iterating): the order is
 \* not part of any property, only "exactly once" (C04) is
 LateCallStop(who) ==
   /\ pc \in {"Early", "G0", "Scale", "Upd0", "Mem0", "Guard"}
   /\ calls' = [calls EXCEPT ![who] = @ + 1]
   /\ UNCHANGED <<cfg, chain, pc, nit, nfev, njev, nit0, n0, f0r, x, fx, fAt, gAt, pg, memo, mem, matsOf,
-                 ls, task, success, lastCb, snap, npts, gen, uphill, fault, out>>
+                 ls, task, success, lastCb, snap, npts, gen, fgen, uphill, fault, out>>
 SkipStop ==
   /\ \/ pc = "StopT" /\ pc' = "StopG"
      \/ pc = "StopG" /\ pc' = "Early"
   /\ UNCHANGED <<cfg, chain, nit, nfev, njev, nit0, n0, f0r, x, fx, fAt, gAt, pg, memo, mem, matsOf,
-                 ls, task, success, calls, lastCb, snap, npts, gen, uphill, fault, out>>
+                 ls, task, success, calls, lastCb, snap, npts, gen, fgen, uphill, fault, out>>
 
 (* main.py:412-433: the start point already meets the target *)
 EarlyTarget ==
@@ -157,12 +158,12 @@ EarlyTarget ==
   /\ task' = "TARGET" /\ success' = TRUE
   /\ pc' = "Classified"
   /\ UNCHANGED <<cfg, chain, nit, nfev, njev, nit0, n0, f0r, x, fx, fAt, gAt, pg, memo, mem, matsOf,
-                 ls, calls, lastCb, snap, npts, gen, uphill, fault, out>>
+                 ls, calls, lastCb, snap, npts, gen, fgen, uphill, fault, out>>
 NoEarlyTarget ==
   /\ pc = "Early"
   /\ pc' = IF cfg.ck THEN "Scale" ELSE "G0"
   /\ UNCHANGED <<cfg, chain, nit, nfev, njev, nit0, n0, f0r, x, fx, fAt, gAt, pg, memo, mem, matsOf,
-                 ls, task, success, calls, lastCb, snap, npts, gen, uphill, fault, out>>
+                 ls, task, success, calls, lastCb, snap, npts, gen, fgen, uphill, fault, out>>
 
 (* A stencil evaluation of a finite-difference gradient (counts in nfev).  *)
 Stencil ==
@@ -170,7 +171,7 @@ Stencil ==
   /\ nfev' = nfev + 1
   /\ n0' = IF pc = "G0" THEN nfev + 1 ELSE n0
   /\ UNCHANGED <<cfg, chain, pc, nit, njev, nit0, f0r, x, fx, fAt, gAt, pg, memo, mem, matsOf,
-                 ls, task, success, calls, lastCb, snap, npts, gen, uphill, fault, out>>
+                 ls, task, success, calls, lastCb, snap, npts, gen, fgen, uphill, fault, out>>
 
 (* main.py:436-439 *)
 EvalG0(p, pgf) ==
@@ -178,7 +179,7 @@ EvalG0(p, pgf) ==
   /\ CountG(p) /\ gAt' = p /\ pg' = pgf
   /\ pc' = "Scale"
   /\ UNCHANGED <<cfg, chain, nit, nfev, nit0, n0, f0r, x, fx, fAt, mem, matsOf, ls, task, success,
-                 calls, lastCb, snap, npts, gen, uphill, fault, out>>
+                 calls, lastCb, snap, npts, gen, fgen, uphill, fault, out>>
 
 (* main.py:443-459: gradient scaler, early update of the objective definition *)
 CallScaler ==
@@ -186,22 +187,23 @@ CallScaler ==
   /\ calls' = [calls EXCEPT !.scaler = @ + 1]
   /\ pc' = "Upd0"
   /\ UNCHANGED <<cfg, chain, nit, nfev, njev, nit0, n0, f0r, x, fx, fAt, gAt, pg, memo, mem, matsOf,
-                 ls, task, success, lastCb, snap, npts, gen, uphill, fault, out>>
+                 ls, task, success, lastCb, snap, npts, gen, fgen, uphill, fault, out>>
 SkipScaler ==
   /\ pc = "Scale" /\ pc' = "Upd0"
   /\ UNCHANGED <<cfg, chain, nit, nfev, njev, nit0, n0, f0r, x, fx, fAt, gAt, pg, memo, mem, matsOf,
-                 ls, task, success, calls, lastCb, snap, npts, gen, uphill, fault, out>>
+                 ls, task, success, calls, lastCb, snap, npts, gen, fgen, uphill, fault, out>>
 CallUpd0 ==
   /\ pc = "Upd0"
   /\ calls' = [calls EXCEPT !.upd = @ + 1]
   /\ gen' = IF cfg.upd = "rewrite" THEN gen + 1 ELSE gen
-  /\ pc' = IF mem # <<>> THEN "Filter0" ELSE "Mem0"   \* restart: the restored sequence is filtered (fix 645f7b7)
+  /\ pc' = IF mem # <<>> /\ Variant # "NoFilter0" THEN "Filter0" ELSE "Mem0"   \* restart: the restored sequence is filtered (fix 645f7b7)
+  /\ fgen' = IF mem = <<>> THEN gen' ELSE fgen        \* nothing stored yet: nothing to filter
   /\ UNCHANGED <<cfg, chain, nit, nfev, njev, nit0, n0, f0r, x, fx, fAt, gAt, pg, memo, mem, matsOf,
                  ls, task, success, lastCb, snap, npts, uphill, fault, out>>
 SkipUpd0 ==
   /\ pc = "Upd0" /\ pc' = "Mem0"
   /\ UNCHANGED <<cfg, chain, nit, nfev, njev, nit0, n0, f0r, x, fx, fAt, gAt, pg, memo, mem, matsOf,
-                 ls, task, success, calls, lastCb, snap, npts, gen, uphill, fault, out>>
+                 ls, task, success, calls, lastCb, snap, npts, gen, fgen, uphill, fault, out>>
 
 (* bfgsmats.py:300-341: curvature test, append, evict the oldest.          *)
 Updated(m, cand, acc, maxcor) ==
@@ -213,24 +215,24 @@ Mem0First ==
   /\ pc = "Mem0" /\ mem = <<>>
   /\ mem' = <<x>> /\ pc' = "Guard"
   /\ UNCHANGED <<cfg, chain, nit, nfev, njev, nit0, n0, f0r, x, fx, fAt, gAt, pg, memo, matsOf,
-                 ls, task, success, calls, lastCb, snap, npts, gen, uphill, fault, out>>
+                 ls, task, success, calls, lastCb, snap, npts, gen, fgen, uphill, fault, out>>
 Mem0Restart(acc, ids) ==
   /\ pc = "Mem0" /\ mem # <<>>
   /\ mem' = ids
   /\ matsOf' = IF acc THEN ids ELSE matsOf
   /\ pc' = "Guard"
   /\ UNCHANGED <<cfg, chain, nit, nfev, njev, nit0, n0, f0r, x, fx, fAt, gAt, pg, memo,
-                 ls, task, success, calls, lastCb, snap, npts, gen, uphill, fault, out>>
+                 ls, task, success, calls, lastCb, snap, npts, gen, fgen, uphill, fault, out>>
 
 (* main.py:492-497 *)
 GuardEnter ==
   /\ pc = "Guard" /\ pc' = "Dir"
   /\ UNCHANGED <<cfg, chain, nit, nfev, njev, nit0, n0, f0r, x, fx, fAt, gAt, pg, memo, mem, matsOf,
-                 ls, task, success, calls, lastCb, snap, npts, gen, uphill, fault, out>>
+                 ls, task, success, calls, lastCb, snap, npts, gen, fgen, uphill, fault, out>>
 GuardExit ==
   /\ pc = "Guard" /\ pc' = "Classify"
   /\ UNCHANGED <<cfg, chain, nit, nfev, njev, nit0, n0, f0r, x, fx, fAt, gAt, pg, memo, mem, matsOf,
-                 ls, task, success, calls, lastCb, snap, npts, gen, uphill, fault, out>>
+                 ls, task, success, calls, lastCb, snap, npts, gen, fgen, uphill, fault, out>>
 
 (* main.py:505-554 (Cauchy point, subspace step are kernels: Cauchy.tla,   *)
 (* Subspace.tla); the line search starts at the current iterate.           *)
@@ -239,7 +241,7 @@ LSBegin(p, budget) ==
   /\ ls' = [on |-> TRUE, x0 |-> p, budget |-> budget, n |-> 0, trials |-> <<>>, pend |-> 0, accPg |-> FALSE]
   /\ pc' = "LSF"
   /\ UNCHANGED <<cfg, chain, nit, nfev, njev, nit0, n0, f0r, x, fx, fAt, gAt, pg, memo, mem, matsOf,
-                 task, success, calls, lastCb, snap, npts, gen, uphill, fault, out>>
+                 task, success, calls, lastCb, snap, npts, gen, fgen, uphill, fault, out>>
 
 (* linesearch.py:297: one trial = objective, then gradient, at a new point *)
 TrialF(p, fr) ==
@@ -249,14 +251,14 @@ TrialF(p, fr) ==
   /\ npts' = Max(npts, p)
   /\ pc' = "LSG"
   /\ UNCHANGED <<cfg, chain, nit, njev, nit0, n0, f0r, x, fx, fAt, gAt, pg, mem, matsOf, task, success,
-                 calls, lastCb, snap, gen, uphill, fault, out>>
+                 calls, lastCb, snap, gen, fgen, uphill, fault, out>>
 TrialG(p, pgf) ==
   /\ pc = "LSG" /\ p = ls.pend
   /\ CountG(p)
   /\ ls' = [ls EXCEPT !.trials[Len(ls.trials)].pg = pgf]
   /\ pc' = "LSF"
   /\ UNCHANGED <<cfg, chain, nit, nfev, nit0, n0, f0r, x, fx, fAt, gAt, pg, mem, matsOf, task,
-                 success, calls, lastCb, snap, npts, gen, uphill, fault, out>>
+                 success, calls, lastCb, snap, npts, gen, fgen, uphill, fault, out>>
 
 (* main.py:555-568: failed line search *)
 LSFailAbort ==
@@ -265,7 +267,7 @@ LSFailAbort ==
   /\ ls' = [ls EXCEPT !.on = FALSE]
   /\ pc' = "Classify"
   /\ UNCHANGED <<cfg, chain, nit, nfev, njev, nit0, n0, f0r, x, fx, fAt, gAt, pg, memo, mem, matsOf,
-                 calls, lastCb, snap, npts, gen, uphill, fault, out>>
+                 calls, lastCb, snap, npts, gen, fgen, uphill, fault, out>>
 LSFailReset ==
   /\ pc = "LSF" /\ Len(mem) > 1
   /\ task' = "RESTART"
@@ -273,7 +275,7 @@ LSFailReset ==
   /\ ls' = [ls EXCEPT !.on = FALSE]
   /\ pc' = "EndIter"
   /\ UNCHANGED <<cfg, chain, nit, nfev, njev, nit0, n0, f0r, x, fx, fAt, gAt, pg, memo, success,
-                 calls, lastCb, snap, npts, gen, uphill, fault, out>>
+                 calls, lastCb, snap, npts, gen, fgen, uphill, fault, out>>
 
 (* main.py:571-575: the iterate moves; f and g are (re)evaluated there     *)
 (* unless the memo cell already holds them.                                *)
@@ -286,12 +288,12 @@ LSStep(p, fr) ==
   /\ ls' = [ls EXCEPT !.on = FALSE, !.pend = fr, !.accPg = TrialPg(p)]
   /\ pc' = "AccF"
   /\ UNCHANGED <<cfg, chain, nit, nfev, njev, nit0, n0, f0r, fx, fAt, gAt, pg, memo, mem, matsOf,
-                 task, success, calls, lastCb, snap, npts, gen, fault, out>>
+                 task, success, calls, lastCb, snap, npts, gen, fgen, fault, out>>
 AccFHit ==      \* memo holds f(x): no user call
   /\ pc = "AccF" /\ memo.pt = x /\ memo.f
   /\ fx' = ls.pend /\ fAt' = x /\ pc' = "AccG"
   /\ UNCHANGED <<cfg, chain, nit, nfev, njev, nit0, n0, f0r, x, gAt, pg, memo, mem, matsOf, ls,
-                 task, success, calls, lastCb, snap, npts, gen, uphill, fault, out>>
+                 task, success, calls, lastCb, snap, npts, gen, fgen, uphill, fault, out>>
 \* (the point evaluated here IS the new iterate; normally the accepted trial point, but a solver that
 \* recomputes the iterate - x + (xbar - x), xbar itself, a projection - may land on a neighbouring float)
 AccFEval(p, fr) ==
@@ -300,33 +302,34 @@ AccFEval(p, fr) ==
   /\ uphill' = (uphill \/ (gen = 0 /\ fr >= 0 /\ fx >= 0 /\ fr > fx))
   /\ CountF(p) /\ fx' = fr /\ fAt' = p /\ pc' = "AccG"
   /\ UNCHANGED <<cfg, chain, nit, njev, nit0, n0, f0r, gAt, pg, mem, matsOf, ls,
-                 task, success, calls, lastCb, snap, npts, gen, fault, out>>
+                 task, success, calls, lastCb, snap, npts, gen, fgen, fault, out>>
 AccFSkip ==     \* no call although the memo does not hold f(x): the held value is stale
   /\ pc = "AccF" /\ ~(memo.pt = x /\ memo.f)
   /\ pc' = "AccG"
   /\ UNCHANGED <<cfg, chain, nit, nfev, njev, nit0, n0, f0r, x, fx, fAt, gAt, pg, memo, mem, matsOf, ls,
-                 task, success, calls, lastCb, snap, npts, gen, uphill, fault, out>>
+                 task, success, calls, lastCb, snap, npts, gen, fgen, uphill, fault, out>>
 AfterAcc == IF cfg.upd = "none" THEN "Tests" ELSE "Upd"
 AccGHit ==
   /\ pc = "AccG" /\ memo.pt = x /\ memo.g
   /\ gAt' = x /\ pg' = ls.accPg /\ pc' = AfterAcc
   /\ UNCHANGED <<cfg, chain, nit, nfev, njev, nit0, n0, f0r, x, fx, fAt, memo, mem, matsOf, ls,
-                 task, success, calls, lastCb, snap, npts, gen, uphill, fault, out>>
+                 task, success, calls, lastCb, snap, npts, gen, fgen, uphill, fault, out>>
 AccGEval(p, pgf) ==
   /\ pc = "AccG" /\ p = x
   /\ CountG(p) /\ gAt' = p /\ pg' = pgf /\ pc' = AfterAcc
   /\ UNCHANGED <<cfg, chain, nit, nfev, nit0, n0, f0r, x, fx, fAt, mem, matsOf, ls,
-                 task, success, calls, lastCb, snap, npts, gen, uphill, fault, out>>
+                 task, success, calls, lastCb, snap, npts, gen, fgen, uphill, fault, out>>
 AccGSkip ==
   /\ pc = "AccG" /\ ~(memo.pt = x /\ memo.g)
   /\ pc' = AfterAcc
   /\ UNCHANGED <<cfg, chain, nit, nfev, njev, nit0, n0, f0r, x, fx, fAt, gAt, pg, memo, mem, matsOf, ls,
-                 task, success, calls, lastCb, snap, npts, gen, uphill, fault, out>>
+                 task, success, calls, lastCb, snap, npts, gen, fgen, uphill, fault, out>>
 
 (* main.py:577-598: on-the-fly redefinition, curvature filter, stop tests (the filter runs BEFORE the tests since   *)
 (* fix ad0fb3f: a run stopped by ftol / target in this iteration returns the filtered sequence)                   *)
 CallUpd ==
-  /\ pc = "Upd" /\ pc' = "Filter"
+  /\ pc = "Upd" /\ pc' = (IF Variant = "FilterAfterTests" THEN "Tests" ELSE "Filter")
+  /\ UNCHANGED fgen
   /\ calls' = [calls EXCEPT !.upd = @ + 1]
   /\ gen' = IF cfg.upd = "rewrite" THEN gen + 1 ELSE gen
   /\ UNCHANGED <<cfg, chain, nit, nfev, njev, nit0, n0, f0r, x, fx, fAt, gAt, pg, memo, mem, matsOf,
@@ -335,27 +338,27 @@ StopTarget ==
   /\ pc = "Tests"
   /\ task' = "TARGET" /\ success' = TRUE /\ pc' = "Classify"
   /\ UNCHANGED <<cfg, chain, nit, nfev, njev, nit0, n0, f0r, x, fx, fAt, gAt, pg, memo, mem, matsOf,
-                 ls, calls, lastCb, snap, npts, gen, uphill, fault, out>>
+                 ls, calls, lastCb, snap, npts, gen, fgen, uphill, fault, out>>
 StopFtol ==
   /\ pc = "Tests"
   /\ task' = "FTOL" /\ success' = TRUE /\ pc' = "Classify"
   /\ UNCHANGED <<cfg, chain, nit, nfev, njev, nit0, n0, f0r, x, fx, fAt, gAt, pg, memo, mem, matsOf,
-                 ls, calls, lastCb, snap, npts, gen, uphill, fault, out>>
+                 ls, calls, lastCb, snap, npts, gen, fgen, uphill, fault, out>>
 NoStop ==
   /\ pc = "Tests"
-  /\ pc' = "MemUpd"
+  /\ pc' = (IF Variant = "FilterAfterTests" /\ cfg.upd # "none" THEN "Filter" ELSE "MemUpd")
   /\ UNCHANGED <<cfg, chain, nit, nfev, njev, nit0, n0, f0r, x, fx, fAt, gAt, pg, memo, mem, matsOf,
-                 ls, task, success, calls, lastCb, snap, npts, gen, uphill, fault, out>>
+                 ls, task, success, calls, lastCb, snap, npts, gen, fgen, uphill, fault, out>>
 (* bfgsmats.py:388-429 *)
 Filter(ids) ==
   /\ pc = "Filter"
-  /\ mem' = ids
-  /\ pc' = "Tests"
+  /\ mem' = ids /\ fgen' = gen
+  /\ pc' = (IF Variant = "FilterAfterTests" THEN "MemUpd" ELSE "Tests")
   /\ UNCHANGED <<cfg, chain, nit, nfev, njev, nit0, n0, f0r, x, fx, fAt, gAt, pg, memo, matsOf,
                  ls, task, success, calls, lastCb, snap, npts, gen, uphill, fault, out>>
 Filter0(ids) ==     \* main.py:456-461, restart only
   /\ pc = "Filter0"
-  /\ mem' = ids
+  /\ mem' = ids /\ fgen' = gen
   /\ pc' = "Mem0"
   /\ UNCHANGED <<cfg, chain, nit, nfev, njev, nit0, n0, f0r, x, fx, fAt, gAt, pg, memo, matsOf,
                  ls, task, success, calls, lastCb, snap, npts, gen, uphill, fault, out>>
@@ -367,7 +370,7 @@ MemUpdate(acc, ids) ==
   /\ matsOf' = IF acc THEN ids ELSE matsOf
   /\ pc' = "Cb"
   /\ UNCHANGED <<cfg, chain, nit, nfev, njev, nit0, n0, f0r, x, fx, fAt, gAt, pg, memo,
-                 ls, task, success, calls, lastCb, snap, npts, gen, uphill, fault, out>>
+                 ls, task, success, calls, lastCb, snap, npts, gen, fgen, uphill, fault, out>>
 
 (* main.py:616-636 *)
 Callback(s, ret) ==
@@ -379,19 +382,19 @@ Callback(s, ret) ==
   /\ success' = IF ret THEN TRUE ELSE success
   /\ pc' = "EndIter"
   /\ UNCHANGED <<cfg, chain, nit, nfev, njev, nit0, n0, f0r, x, fx, fAt, gAt, pg, memo, mem, matsOf,
-                 ls, npts, gen, uphill, fault, out>>
+                 ls, npts, gen, fgen, uphill, fault, out>>
 NoCallback ==
   /\ pc = "Cb"
   /\ pc' = "EndIter"
   /\ UNCHANGED <<cfg, chain, nit, nfev, njev, nit0, n0, f0r, x, fx, fAt, gAt, pg, memo, mem, matsOf,
-                 ls, task, success, calls, lastCb, snap, npts, gen, uphill, fault, out>>
+                 ls, task, success, calls, lastCb, snap, npts, gen, fgen, uphill, fault, out>>
 
 (* main.py:645 *)
 EndIter ==
   /\ pc = "EndIter"
   /\ nit' = nit + 1 /\ pc' = "Guard"
   /\ UNCHANGED <<cfg, chain, nfev, njev, nit0, n0, f0r, x, fx, fAt, gAt, pg, memo, mem, matsOf,
-                 ls, task, success, calls, lastCb, snap, npts, gen, uphill, fault, out>>
+                 ls, task, success, calls, lastCb, snap, npts, gen, fgen, uphill, fault, out>>
 
 (* main.py:653-664: final classification of the stop reason.  `pgS` is the *)
 (* fact "projected gradient of (x, grad) <= gtol".                         *)
@@ -411,7 +414,7 @@ StateRec(kind, o) ==
    prov |-> o.prov, yOk |-> o.yOk, exact |-> o.exact, yAp |-> o.yAp, syPos |-> o.syPos, frozen |-> o.frozen,
    \* the model's own bookkeeping at the moment of emission
    mx |-> x, mnit |-> nit, mnfev |-> nfev, mnjev |-> njev, mmem |-> mem, mfx |-> fx,
-   mfAt |-> fAt, mgAt |-> gAt, mlastCb |-> lastCb, mcalls |-> calls, mgen |-> gen,
+   mfAt |-> fAt, mgAt |-> gAt, mlastCb |-> lastCb, mcalls |-> calls, mgen |-> gen, mfilt |-> (fgen = gen),
    muphill |-> uphill, mtask |-> task, mpc |-> pc]
 
 Return(o) ==
@@ -419,20 +422,20 @@ Return(o) ==
   /\ out' = StateRec(IF pc = "Classified" THEN "early" ELSE "result", o)
   /\ pc' = "Done"
   /\ UNCHANGED <<cfg, chain, nit, nfev, njev, nit0, n0, f0r, x, fx, fAt, gAt, pg, memo, mem, matsOf,
-                 ls, task, success, calls, lastCb, snap, npts, gen, uphill, fault>>
+                 ls, task, success, calls, lastCb, snap, npts, gen, fgen, uphill, fault>>
 
 (* C20: a user callable raises; nothing else may happen than propagation.  *)
 Raise(kind) ==
   /\ fault = "none" /\ pc \notin {"Idle", "Done", "Raised"}
   /\ fault' = kind /\ pc' = "Raised"
   /\ UNCHANGED <<cfg, chain, nit, nfev, njev, nit0, n0, f0r, x, fx, fAt, gAt, pg, memo, mem, matsOf,
-                 ls, task, success, calls, lastCb, snap, npts, gen, uphill, out>>
+                 ls, task, success, calls, lastCb, snap, npts, gen, fgen, uphill, out>>
 Propagate(same) ==
   /\ pc = "Raised"
   /\ out' = [kind |-> "raised", same |-> same, fault |-> fault]
   /\ pc' = "Done"
   /\ UNCHANGED <<cfg, chain, nit, nfev, njev, nit0, n0, f0r, x, fx, fAt, gAt, pg, memo, mem, matsOf,
-                 ls, task, success, calls, lastCb, snap, npts, gen, uphill, fault>>
+                 ls, task, success, calls, lastCb, snap, npts, gen, fgen, uphill, fault>>
 
 (* A restart from the returned result (checkpoint). *)
 Restart ==
@@ -440,7 +443,7 @@ Restart ==
   /\ chain' = chain + 1
   /\ pc' = "Idle"
   /\ UNCHANGED <<cfg, nit, nfev, njev, nit0, n0, f0r, x, fx, fAt, gAt, pg, memo, mem, matsOf,
-                 ls, task, success, calls, lastCb, snap, npts, gen, uphill, fault, out>>
+                 ls, task, success, calls, lastCb, snap, npts, gen, fgen, uphill, fault, out>>
 
 -----------------------------------------------------------------------------
 (***************************************************************************)
@@ -491,6 +494,13 @@ C18_Count   == IsRes => Len(out.prov) <= cfg.maxcor
 \* every pair is the bit-exact difference of two consecutive retained iterates and of the gradients there
 ProvOK(r) == /\ r.prov = Pairs(r.mmem)
              /\ \A i \in DOMAIN r.yOk : r.yOk[i] /\ r.exact[i]
+\* C13/C18: a result or callback state that carries pairs carries a sequence that passed the curvature filter after the
+\* last redefinition of the objective (fixes ad0fb3f, 645f7b7)
+\* C13 (identity update functions are neutral) / C04: a run that ends in the stop tests of an iteration with the target met
+\* reports the target, whether or not an update function is present
+C13_TargetFirst == IsRes /\ out.kind = "result" /\ out.msg = "FTOL" => ~out.leT
+C13_ReturnFiltered == IsRes /\ out.kind = "result" /\ Len(out.mmem) >= 2 => out.mfilt
+C13_SnapFiltered == snap.kind = "cb" /\ Len(snap.mmem) >= 2 => snap.mfilt
 C18_Provenance == IsRes /\ out.kind = "result" /\ out.mgen = 0 /\ chain = 0 /\ ~cfg.ck => ProvOK(out)
 C18_SnapProvenance == snap.kind = "cb" /\ snap.mgen = 0 /\ chain = 0 /\ ~cfg.ck => ProvOK(snap)
 \* after a restart the pairs formed since the restart are exact; the inherited ones are, at least up
@@ -524,6 +534,7 @@ InvTable == <<
   <<"C05_SnapCounters", C05_SnapCounters>>, <<"C05_ResultIsX", C05_ResultIsX>>,
   <<"C07_SnapNit", C07_SnapNit>>, <<"C07_SnapX", C07_SnapX>>, <<"C07_SnapFrozen", C07_SnapFrozen>>,
   <<"C07_SnapPairs", C07_SnapPairs>>,
+  <<"C13_TargetFirst", C13_TargetFirst>>, <<"C13_ReturnFiltered", C13_ReturnFiltered>>, <<"C13_SnapFiltered", C13_SnapFiltered>>,
   <<"C10_Bounded", C10_Bounded>>, <<"C18_Count", C18_Count>>, <<"C18_Provenance", C18_Provenance>>,
   <<"C18_SnapProvenance", C18_SnapProvenance>>, <<"C18_Curvature", C18_Curvature>>,
   <<"C18_ProvenanceRestart", C18_ProvenanceRestart>>, <<"C18_InheritedExact", C18_InheritedExact>>,
